@@ -52,3 +52,18 @@ Proof.
   eexists. eexists. split; [vm_compute; reflexivity|]. split; [vm_compute; reflexivity|].
   split; [vm_compute; discriminate|]. split; vm_compute; reflexivity.
 Qed.
+
+(* SOA for shop.example.org: MNAME ns1.dns-provider.net, RNAME hostmaster + a pointer into the MNAME of the SAME rdata *)
+Definition soa_intra_rdata : bytes :=
+  [x00;x07;x81;x80;x00;x01;x00;x01;x00;x00;x00;x00;x04;x73;x68;x6f;x70;x07;x65;x78;x61;x6d;x70;x6c;x65;x03;x6f;x72;x67;x00;
+   x00;x06;x00;x01;xc0;x0c;x00;x06;x00;x01;x00;x00;x0e;x10;x00;x37;x03;x6e;x73;x31;x0c;x64;x6e;x73;x2d;x70;x72;x6f;x76;x69;
+   x64;x65;x72;x03;x6e;x65;x74;x00;x0a;x68;x6f;x73;x74;x6d;x61;x73;x74;x65;x72;xc0;x32;x78;xa3;xf1;x75;x00;x00;x1c;x20;x00;
+   x00;x0e;x10;x00;x12;x75;x00;x00;x00;x01;x2c].
+
+Lemma intra_rdata_example : exists w b',
+  ref_canon soa_intra_rdata = Some w /\ forward_udp soa_intra_rdata = Ok b'
+  /\ ref_canon b' = Some w /\ length b' = 133.
+Proof.
+  eexists. eexists. split; [vm_compute; reflexivity|]. split; [vm_compute; reflexivity|].
+  split; vm_compute; reflexivity.
+Qed.
